@@ -90,7 +90,11 @@ class IStub(Stub):
 
     def __setstate__(self, state):
         self.states.append(state)
-        self._w.log.append(("setstate", self, state))
+        try:
+            snap = canon_creation(state)
+        except RecursionError:
+            snap = ("cyclic",)
+        self._w.log.append(("setstate", self, snap))
 
     def __setitem__(self, k, v):
         self.items.append((k, v))
@@ -205,6 +209,8 @@ def events(world):
         elif k in ("call", "new", "persid"):
             inst = ev[1]
             calls.append(safe_canon_creation(inst))
+        elif k == "setstate":
+            others.append((k, safe_canon_creation(ev[1]), ev[2]))
         else:
             others.append((k,) + tuple(safe_canon_creation(x) for x in ev[1:]))
     return imports, calls, others
